@@ -50,6 +50,8 @@ def cases(tier, seed):
                 # several deferred actions opened by one event (one pending context holding several callbacks)
                 out.append({'k': 'seq', 'prog': name, 'kind': 'span_pair', 'at': fn, 'fc': fc})
                 out.append({'k': 'seq', 'prog': name, 'kind': 'span_and_capture', 'at': fn, 'fc': fc})
+                # the completion of one deferred action fails (the delivery is closed): the others pending for the event still complete
+                out.append({'k': 'seq', 'prog': name, 'kind': 'span_and_capture', 'at': fn, 'fc': fc, 'push_fails': True})
             for ln in lines[::2]:
                 out.append({'k': 'seq', 'prog': name, 'kind': 'span_line_pair', 'at': ln, 'fc': fc})
             # deferred actions opened by *different* events and pending together: a method span plus a line span on every line of
@@ -126,7 +128,11 @@ def triggers_for(prog, kind, at, fc, at2=None):
     return [make_trigger(prog, kind, at, fc)]
 
 
-def run_program(prog, trigger, agent=None, thread=False):
+class DeliveryClosed(BaseException):
+    """What the real delivery raises once it is closed (deep.task.IllegalStateException is a BaseException too)."""
+
+
+def run_program(prog, trigger, agent=None, thread=False, push_fails=False):
     lo = progs.load(prog)
     tr = Trace()
     j = rig.Journal()
@@ -136,6 +142,8 @@ def run_program(prog, trigger, agent=None, thread=False):
     real_push = agent.push.push_snapshot
 
     def push(snap):
+        if push_fails:
+            raise DeliveryClosed('delivery is closed')
         tr.pushes.append((snap, threading.current_thread().name, tr.where()))
         return real_push(snap)
     agent.push.push_snapshot = push
@@ -189,10 +197,13 @@ def run_case(ctx, desc):
 def seq(ctx, desc):
     prog, kind, at, fc = desc['prog'], desc['kind'], desc['at'], desc['fc']
     trig = triggers_for(prog, kind, at, fc, desc.get('at2'))
-    lo, agent, j, tr, run = run_program(prog, trig)
+    lo, agent, j, tr, run = run_program(prog, trig, push_fails=bool(desc.get('push_fails')))
     ctx.case()
-    label = f'{prog} {kind}@{at}{"+" + str(desc["at2"]) if "at2" in desc else ""} fire_count={fc}'
     case = dict(desc)
+    if desc.get('push_fails'):
+        desc = dict(desc, kind='span_pair')      # only the spans can be judged: each closed once, inside its invocation
+        kind = 'span_pair'
+    label = f'{prog} {kind}@{at}{"+" + str(desc["at2"]) if "at2" in desc else ""} fire_count={fc}{" delivery closed" if case.get("push_fails") else ""}'
     store = dict(rig.ThreadLocal._ThreadLocal__store)
     if run.escaped:
         e = run.escaped[0]
